@@ -14,7 +14,7 @@ def runs_text(ev):
         if r.get("dev"):
             b += "+dev"
         h = r["harness"].replace("PessimisticLock", "P").replace("OptimisticLock", "O").replace("MCSLock", "M").replace("IDManager/", "").replace("EpochManager/", "")
-        by.setdefault((r["label"], b), []).append(h + ("" if r["exhaustive"] else "*"))
+        by.setdefault((r["label"], b), []).append(h + ("(skipped)" if r.get("skipped") else "" if r["exhaustive"] else "*"))
     parts = []
     for (label, b), hs in by.items():
         parts.append("`%s` %s [%s]" % (label, b, " ".join(hs)))
